@@ -623,6 +623,8 @@ pub struct World {
     pub indexed_lists: Vec<Vec<String>>,
     /// values of script members that are not functions (for C11's script-path clause)
     pub script_values: Value,
+    /// path of the root component's template file
+    pub root_path: String,
 }
 
 impl World {
@@ -630,7 +632,7 @@ impl World {
         self.files.iter().map(|f| (f.path.clone(), f.to_wxml())).collect()
     }
     pub fn root_file(&self) -> &TFile {
-        self.files.iter().find(|f| f.path == "index").expect("root file")
+        self.files.iter().find(|f| f.path == self.root_path).expect("root file")
     }
     pub fn config_json(&self) -> Value {
         let mut c = json!({"backend": self.config.backend});
@@ -915,6 +917,7 @@ pub fn world_to_json(w: &World) -> Value {
         "config": w.config_json(),
         "schedule": w.schedule,
         "indexed_lists": w.indexed_lists,
+        "root_path": w.root_path,
         "script_values": w.script_values,
         "unreachable_fields": unreachable_fields(w),
         "tags": world_tags(w).into_iter().collect::<Vec<_>>(),
